@@ -723,7 +723,7 @@ def shards(tier, seed):
     for part in range(nparts):
         out.append((f"faults{part}", "shard_faults", {"part": part, "nparts": nparts, "max_points": 4000 if big else 150}))
     for fmt in OBJ.ALL_FORMATS:
-        out.append((f"gen_{fmt}", "shard_generated", {"fmt": fmt, "max_examples": 300 if big else 15}))
+        out.append((f"gen_{fmt}", "shard_generated", {"fmt": fmt, "max_examples": 3000 if big else 15}))
     return out
 
 
